@@ -167,10 +167,10 @@ fn enforcement_case(ctx: &mut Ctx, start: &str, steps: &[Value], validate_nbf: b
     match variant {
         "all-satisfied" => {}
         "exp-expired" => { p["exp"] = json!(t - lee - 5); expect = !v.validate_exp; }
-        "exp-within-leeway" => { p["exp"] = json!(t - lee + 5); applicable = lee > 10; }
+        "exp-within-leeway" => { p["exp"] = json!(t - lee + 30); applicable = lee > 35; }
         "exp-missing" => { p.as_object_mut().unwrap().remove("exp"); expect = !v.validate_exp && !req("exp"); }
         "exp-string" => { p["exp"] = json!("soon"); expect = !v.validate_exp; }
-        "nbf-future" => { p["nbf"] = json!(t + lee + 5); expect = !v.validate_nbf; }
+        "nbf-future" => { p["nbf"] = json!(t + lee + 30); expect = !v.validate_nbf; }
         "nbf-within-leeway" => { p["nbf"] = json!(t + lee - 5); applicable = lee > 10; }
         "nbf-missing" => { p.as_object_mut().unwrap().remove("nbf"); expect = !v.validate_nbf && !req("nbf"); }
         "aud-wrong" => { p["aud"] = json!("someone-else"); expect = v.aud.is_none(); }
@@ -290,7 +290,7 @@ fn kb_policies(ctx: &mut Ctx) {
 }
 
 pub fn run(ctx: &mut Ctx, replay: Option<&Value>) {
-    ctx.report.rule = "all sequences of builder calls of length <= 3 (quick) / 4 (thorough) over a 17-step alphabet (without_expiry, with_audience x2, with_issuer x2, with_subject x2, with_leeway x2, with_algorithm x2, with_required_claim x6: iss, x, exp, nbf, aud, sub) from default() and new(PS384): frame condition after every step, final record compared field by field with the model; random longer sequences against a reordering that keeps the relative order per setting; for every policy reachable in <= 2 steps (and random longer ones) x validate_nbf in {false,true}: a token satisfying every constraint and tokens violating exactly one (19 variants, margins >= 5 s around now +- leeway) through decode / Holder::verify / Verifier::verify, compared with the model's decision; the key-binding policy (algorithm x audience) against key-binding JWTs signed with each RSA algorithm under cnf keys with each `alg` member, through verify_kb and Verifier::verify; non-trivial = distinct sequence of >= 2 steps, or distinct (policy, variant)".to_string();
+    ctx.report.rule = "all sequences of builder calls of length <= 3 (quick) / 4 (thorough) over a 17-step alphabet (without_expiry, with_audience x2, with_issuer x2, with_subject x2, with_leeway x2, with_algorithm x2, with_required_claim x6: iss, x, exp, nbf, aud, sub) from default() and new(PS384): frame condition after every step, final record compared field by field with the model; random longer sequences against a reordering that keeps the relative order per setting; for every policy reachable in <= 2 steps (and random longer ones) x validate_nbf in {false,true}: a token satisfying every constraint and tokens violating exactly one (19 variants, margins of 5 s on the side that time moves away from and 30 s on the side it moves towards, around now +- leeway (a stalled run must not turn a token valid or invalid under the check's feet)) through decode / Holder::verify / Verifier::verify, compared with the model's decision; the key-binding policy (algorithm x audience) against key-binding JWTs signed with each RSA algorithm under cnf keys with each `alg` member, through verify_kb and Verifier::verify; non-trivial = distinct sequence of >= 2 steps, or distinct (policy, variant)".to_string();
     if let Some(case) = replay {
         let steps: Vec<Value> = case["steps"].as_array().cloned().unwrap_or_default();
         let start = case["start"].as_str().unwrap_or("default");
